@@ -57,6 +57,7 @@ fn cases(_ob: &str) -> Vec<String> {
     for ti in 0..REF_TOKENS.len() { out.push(format!("ref:{}", ti)); }
     for t in ["1+", "1-", "1/2", "1.5.6", "0x10", "12ab"] { out.push(format!("whole:{}", t)); }
     for (i, _) in QUOTES.iter().enumerate() { out.push(format!("quotes:{}", i)); }
+    out.push("kwsets:".into());
     out
 }
 
@@ -135,8 +136,33 @@ fn quotes(case: &str) -> Option<String> {
     None
 }
 
+/// `with_keyword_syntaxes` SETS the recognised spellings (replaces whatever was enabled), `with_keyword_syntax` adds one
+fn kwsets() -> Option<String> {
+    let all = [KeywordSyntax::ColonPrefix, KeywordSyntax::ColonPostfix, KeywordSyntax::Octothorpe];
+    for (bn, b) in [("new", Options::new()), ("default", Options::default()), ("elisp", Options::elisp()), ("all", Options::new().with_keyword_syntaxes(all.iter()))] {
+        for mask in 0..8usize {
+            let set: Vec<KeywordSyntax> = all.iter().enumerate().filter(|(i, _)| mask >> i & 1 == 1).map(|(_, k)| *k).collect();
+            let o = b.clone().with_keyword_syntaxes(set.iter());
+            for (i, k) in all.iter().enumerate() {
+                if o.keyword_syntax(*k) != (mask >> i & 1 == 1) { return Some(format!("Options::{}().with_keyword_syntaxes({:?}).keyword_syntax({:?}) = {}", bn, set, k, o.keyword_syntax(*k))); }
+            }
+            for (i, (text, name)) in [(":foo", "foo"), ("foo:", "foo"), ("#:foo", "foo")].iter().enumerate() {
+                let on = mask >> i & 1 == 1;
+                match (from_str_custom(text, o.clone()), on) {
+                    (Ok(v), true) => if v != Value::keyword(*name) { return Some(format!("{:?} under Options::{}().with_keyword_syntaxes({:?}) reads as {}", text, bn, set, v)); },
+                    (Ok(v), false) => if v.is_keyword() { return Some(format!("{:?} under Options::{}().with_keyword_syntaxes({:?}) (spelling not in the set) reads as the keyword {}", text, bn, set, v)); },
+                    (Err(e), true) => return Some(format!("{:?} under Options::{}().with_keyword_syntaxes({:?}) fails: {}", text, bn, set, e)),
+                    (Err(_), false) => if i != 2 { return Some(format!("{:?} under Options::{}().with_keyword_syntaxes({:?}) fails", text, bn, set)); },
+                }
+            }
+        }
+    }
+    None
+}
+
 fn check(case: &str) -> Option<String> {
     if case.starts_with("whole:") { return whole(case); }
+    if case.starts_with("kwsets:") { return kwsets(); }
     if case.starts_with("quotes:") { return quotes(case); }
     if case.starts_with("ref:") {
         let tok = REF_TOKENS[case[4..].parse::<usize>().ok()?];
